@@ -1,8 +1,16 @@
-//! C15: the command registry is a consistent name/alias map (public `Commands` API).
+//! C15: the command registry is a consistent name/alias map.
+//! Stream `reg`: histories on the public `Commands` API.  Stream `regs`: histories of the
+//! script-level commands alias / unalias / remove_command / is_command_defined / fn run in-process
+//! in a context with the SDK loaded (model: lean/DuckModel/Sdk/RegistryCmd.lean).
 use crate::rng::Rng;
 use crate::wire::*;
 use crate::{Case, Prop, Tier};
-use duckscript::types::command::{Command, Commands};
+use duckscript::types::command::{Command, CommandInvocationContext, CommandResult, Commands, GoToValue};
+use duckscript::types::instruction::{Instruction, InstructionMetaInfo, InstructionType, ScriptInstruction};
+use duckscript::types::runtime::{Context, StateValue};
+use std::cell::RefCell;
+use std::collections::{BTreeSet, HashMap};
+use std::rc::Rc;
 
 pub struct C15Prop;
 pub static C15: C15Prop = C15Prop;
@@ -73,12 +81,568 @@ fn finish(ops: &[String]) -> String {
     format!("reg {}", out.join(";"))
 }
 
+
+// ---------------------------------------------------------------------------------------------
+// stream `regs`: the script-level commands
+// ---------------------------------------------------------------------------------------------
+
+const SNAMES: [&str; 3] = ["a", "b", "foo"];
+const PROBE: &str = "c15probe";
+
+/// target of every alias the harness creates: records its arguments (the first one is the id of
+/// the creating `alias` call)
+#[derive(Clone)]
+struct Probe {
+    seen: Rc<RefCell<Vec<Vec<String>>>>,
+}
+impl Command for Probe {
+    fn name(&self) -> String {
+        PROBE.to_string()
+    }
+    fn clone_and_box(&self) -> Box<dyn Command> {
+        Box::new(self.clone())
+    }
+    fn run(&self, ctx: CommandInvocationContext) -> CommandResult {
+        self.seen.borrow_mut().push(ctx.arguments.clone());
+        CommandResult::Continue(None)
+    }
+}
+
+/// one operation of a `regs` request (wire form documented in lean/DuckModel/Drv/C15S.lean)
+#[derive(Clone, Debug)]
+enum SOp {
+    N { name: String, al: Vec<String>, t: usize },
+    A { args: Vec<String>, id: usize },
+    U(Vec<String>),
+    R(Vec<String>),
+    D(Vec<String>),
+    F { name: String, line: usize, has_end: bool, scoped: bool },
+}
+
+fn parse_sops(req: &str) -> Vec<SOp> {
+    let ops = req.split(' ').nth(1).unwrap_or("-");
+    let mut out = vec![];
+    if ops == "-" {
+        return out;
+    }
+    for o in ops.split(';') {
+        let f: Vec<&str> = o.split('/').collect();
+        out.push(match f[0] {
+            "N" => SOp::N { name: dec_str(f[1]).unwrap(), al: dec_list(f[2]).unwrap(), t: f[3].parse().unwrap() },
+            "A" => SOp::A { args: dec_list(f[1]).unwrap(), id: f[2].parse().unwrap() },
+            "U" => SOp::U(dec_list(f[1]).unwrap()),
+            "R" => SOp::R(dec_list(f[1]).unwrap()),
+            "D" => SOp::D(dec_list(f[1]).unwrap()),
+            "F" => SOp::F { name: dec_str(f[1]).unwrap(), line: f[2].parse().unwrap(), has_end: f[3] == "1", scoped: f[4] == "1" },
+            other => panic!("bad op {}", other),
+        });
+    }
+    out
+}
+
+fn render_sop(o: &SOp) -> String {
+    match o {
+        SOp::N { name, al, t } => format!("N/{}/{}/{}", enc_str(name), enc_list(al), t),
+        SOp::A { args, id } => format!("A/{}/{}", enc_list(args), id),
+        SOp::U(a) => format!("U/{}", enc_list(a)),
+        SOp::R(a) => format!("R/{}", enc_list(a)),
+        SOp::D(a) => format!("D/{}", enc_list(a)),
+        SOp::F { name, line, has_end, scoped } => format!("F/{}/{}/{}/{}", enc_str(name), line, *has_end as u8, *scoped as u8),
+    }
+}
+
+fn render_sreq(ops: &[SOp]) -> String {
+    if ops.is_empty() {
+        "regs -".to_string()
+    } else {
+        format!("regs {}", ops.iter().map(render_sop).collect::<Vec<_>>().join(";"))
+    }
+}
+
+/// templates of the generators: ids and lines are filled in by `number`
+#[derive(Clone)]
+enum Tmpl {
+    N(&'static str, Vec<&'static str>),
+    /// alias: `None` = no argument at all; (name, extra): 0 = name only (arity error),
+    /// 1 = name + target + id, 2 = one more argument
+    A(Option<(&'static str, usize)>),
+    U(Vec<&'static str>),
+    R(Vec<&'static str>),
+    D(Vec<&'static str>),
+    /// fn name; line: None = the line the operation has when the history is written as one script
+    F(&'static str, Option<usize>, bool, bool),
+}
+
+/// line of operation `i` when the whole history is written as one script (`fn` takes two lines)
+fn canonical_lines(kinds: &[(bool, bool)]) -> Vec<usize> {
+    // kinds: (takes a line at all, is fn with end)
+    let mut cur = 0;
+    let mut out = vec![];
+    for (has_line, two) in kinds {
+        out.push(cur);
+        if *has_line {
+            cur += if *two { 2 } else { 1 };
+        }
+    }
+    out
+}
+
+fn number(ts: &[Tmpl]) -> Vec<SOp> {
+    let kinds: Vec<(bool, bool)> = ts.iter().map(|t| match t {
+        Tmpl::N(..) => (false, false),
+        Tmpl::F(_, _, e, _) => (true, *e),
+        _ => (true, false),
+    }).collect();
+    let lines = canonical_lines(&kinds);
+    let strs = |v: &Vec<&'static str>| v.iter().map(|s| s.to_string()).collect::<Vec<String>>();
+    ts.iter().enumerate().map(|(i, t)| match t {
+        Tmpl::N(n, al) => SOp::N { name: n.to_string(), al: strs(al), t: i + 1 },
+        Tmpl::A(None) => SOp::A { args: vec![], id: i },
+        Tmpl::A(Some((n, extra))) => {
+            let mut args = vec![n.to_string()];
+            if *extra >= 1 {
+                args.push(PROBE.to_string());
+                args.push(i.to_string());
+            }
+            if *extra >= 2 {
+                args.push("x".to_string());
+            }
+            SOp::A { args, id: i }
+        }
+        Tmpl::U(a) => SOp::U(strs(a)),
+        Tmpl::R(a) => SOp::R(strs(a)),
+        Tmpl::D(a) => SOp::D(strs(a)),
+        Tmpl::F(n, line, e, sc) => SOp::F { name: n.to_string(), line: line.unwrap_or(lines[i]), has_end: *e, scoped: *sc },
+    }).collect()
+}
+
+fn exhaustive_templates() -> Vec<Tmpl> {
+    let mut v = vec![];
+    for n in SNAMES {
+        v.push(Tmpl::A(Some((n, 1))));
+        v.push(Tmpl::U(vec![n]));
+        v.push(Tmpl::R(vec![n]));
+        v.push(Tmpl::D(vec![n]));
+        v.push(Tmpl::F(n, None, true, false));
+    }
+    v.push(Tmpl::N("std::B", vec!["b"]));
+    v
+}
+
+/// histories that show what the real commands do with stale records (4 and 5 operations)
+fn regression_templates() -> Vec<Vec<Tmpl>> {
+    vec![
+        // refused alias of a function, then unalias: the function must survive
+        vec![Tmpl::F("foo", None, true, false), Tmpl::A(Some(("foo", 1))), Tmpl::U(vec!["foo"]), Tmpl::D(vec!["foo"])],
+        vec![Tmpl::N("foo", vec![]), Tmpl::A(Some(("foo", 1))), Tmpl::U(vec!["foo"]), Tmpl::D(vec!["foo"])],
+        vec![Tmpl::A(Some(("foo", 1))), Tmpl::A(Some(("foo", 2))), Tmpl::U(vec!["foo"]), Tmpl::U(vec!["foo"]), Tmpl::D(vec!["foo"])],
+        // stale alias record after remove_command: unalias removes the later function
+        vec![Tmpl::A(Some(("foo", 1))), Tmpl::R(vec!["foo"]), Tmpl::F("foo", None, true, false), Tmpl::U(vec!["foo"]), Tmpl::D(vec!["foo"])],
+        vec![Tmpl::A(Some(("foo", 1))), Tmpl::R(vec!["foo"]), Tmpl::N("std::A", vec!["foo"]), Tmpl::U(vec!["foo"]), Tmpl::D(vec!["std::A"])],
+        // an embedder alias over a recorded name: unalias removes the native command
+        vec![Tmpl::A(Some(("b", 1))), Tmpl::N("std::B", vec!["b"]), Tmpl::U(vec!["b"]), Tmpl::D(vec!["b"]), Tmpl::D(vec!["std::B"])],
+        // the function table outlives the function / a refused definition blocks the name
+        vec![Tmpl::F("foo", None, true, false), Tmpl::R(vec!["foo"]), Tmpl::F("foo", None, true, false), Tmpl::D(vec!["foo"])],
+        vec![Tmpl::A(Some(("foo", 1))), Tmpl::F("foo", None, true, true), Tmpl::U(vec!["foo"]), Tmpl::F("foo", None, true, false), Tmpl::D(vec!["foo"])],
+        // the same fn line again skips the block; no end of block crashes
+        vec![Tmpl::F("foo", Some(3), true, false), Tmpl::F("foo", Some(3), true, false), Tmpl::F("a", Some(7), false, false), Tmpl::D(vec!["a"])],
+        // arity
+        vec![Tmpl::A(None), Tmpl::A(Some(("a", 0))), Tmpl::A(Some(("a", 2))), Tmpl::U(vec![]), Tmpl::U(vec!["a", "b"]), Tmpl::R(vec![]), Tmpl::R(vec!["a", "b"]), Tmpl::D(vec![]), Tmpl::D(vec!["a", "b"])],
+    ]
+}
+
+fn random_templates(rng: &mut Rng) -> Vec<Tmpl> {
+    const NAT: [&str; 4] = ["std::B", "std::A", "a", "foo"];
+    let n = 1 + rng.below(12);
+    let mut ts: Vec<Tmpl> = vec![];
+    // a realistic start: some native registrations first
+    for _ in 0..rng.below(3) {
+        let k = rng.below(3);
+        let al: Vec<&'static str> = (0..k).map(|_| rng.pick_s(&SNAMES)).collect();
+        ts.push(Tmpl::N(rng.pick_s(&NAT), al));
+    }
+    for _ in 0..n {
+        let name = rng.pick_s(&SNAMES);
+        let t = match rng.below(20) {
+            0..=5 => Tmpl::A(Some((name, if rng.chance(1, 12) { rng.below(3) } else { 1 }))),
+            6..=9 => Tmpl::U(vec![name]),
+            10..=12 => Tmpl::R(vec![name]),
+            13..=14 => Tmpl::D(vec![name]),
+            15..=17 => {
+                // mostly the canonical line; sometimes the line of an earlier fn (re-run of that line)
+                let line = if rng.chance(1, 6) {
+                    let earlier: Vec<usize> = number(&ts).iter().filter_map(|o| if let SOp::F { line, .. } = o { Some(*line) } else { None }).collect();
+                    if earlier.is_empty() { Some(rng.below(6)) } else { Some(*rng.pick(&earlier)) }
+                } else {
+                    None
+                };
+                Tmpl::F(name, line, !rng.chance(1, 15), rng.chance(1, 4))
+            }
+            18 => {
+                let k = rng.below(3);
+                let al: Vec<&'static str> = (0..k).map(|_| rng.pick_s(&SNAMES)).collect();
+                Tmpl::N(rng.pick_s(&NAT), al)
+            }
+            _ => match rng.below(5) {
+                0 => Tmpl::A(None),
+                1 => Tmpl::U(if rng.chance(1, 2) { vec![] } else { vec![name, rng.pick_s(&SNAMES)] }),
+                2 => Tmpl::R(if rng.chance(1, 2) { vec![] } else { vec![name, rng.pick_s(&SNAMES)] }),
+                3 => Tmpl::D(if rng.chance(1, 2) { vec![] } else { vec![name, rng.pick_s(&SNAMES)] }),
+                _ => Tmpl::U(vec!["std::B"]),
+            },
+        };
+        ts.push(t);
+    }
+    ts
+}
+
+/// what the registry of the loaded SDK (+ the probe) looks like: key -> aliases, alias -> name
+struct Baseline {
+    commands: HashMap<String, Vec<String>>,
+    aliases: HashMap<String, String>,
+}
+
+thread_local! {
+    static BASE: Baseline = {
+        let c = crate::sdkenv::sdk_context();
+        let mut commands: HashMap<String, Vec<String>> = c.commands.commands.iter().map(|(k, v)| (k.clone(), v.aliases())).collect();
+        commands.insert(PROBE.to_string(), vec![]);
+        Baseline { commands, aliases: c.commands.aliases.clone() }
+    };
+}
+
+fn fresh_context() -> (Context, Rc<RefCell<Vec<Vec<String>>>>) {
+    let mut ctx = crate::sdkenv::sdk_context();
+    let seen = Rc::new(RefCell::new(vec![]));
+    ctx.commands.set(Box::new(Probe { seen: seen.clone() })).expect("probe");
+    (ctx, seen)
+}
+
+/// what kind of implementation a (new) registered command is: `n<tag>` for the harness's native
+/// commands (their help text is the tag); otherwise the command is RUN on a copy of the context:
+/// an alias reaches the probe with the id of its creating call, a function answers with a jump
+/// to the line after its definition
+fn kind_of(cmd: &Box<dyn Command>, ctx: &Context, seen: &Rc<RefCell<Vec<Vec<String>>>>) -> String {
+    if let Ok(t) = cmd.help().parse::<usize>() {
+        return format!("n{}", t);
+    }
+    let mut c2 = ctx.clone();
+    let before = seen.borrow().len();
+    let instructions = vec![];
+    let mut env = crate::sdkenv::quiet_env(None);
+    let res = cmd.run(CommandInvocationContext {
+        arguments: vec![],
+        state: &mut c2.state,
+        variables: &mut c2.variables,
+        output_variable: None,
+        instructions: &instructions,
+        commands: &mut c2.commands,
+        line: 0,
+        env: &mut env,
+    });
+    let grown = seen.borrow().len() > before;
+    let k = match res {
+        CommandResult::GoTo(None, GoToValue::Line(l)) if l >= 1 && !grown => format!("f{}", l - 1),
+        CommandResult::Continue(None) if grown => {
+            let s = seen.borrow();
+            format!("a{}", s.last().and_then(|a| a.first().cloned()).unwrap_or("?".to_string()))
+        }
+        _ => "?".to_string(),
+    };
+    seen.borrow_mut().truncate(before);
+    k
+}
+
+fn sub_state<'a>(m: &'a HashMap<String, StateValue>, key: &str) -> Option<&'a HashMap<String, StateValue>> {
+    match m.get(key) {
+        Some(StateValue::SubState(s)) => Some(s),
+        _ => None,
+    }
+}
+
+/// the observed state of the real context.  Registry: every entry of the two tables that is not
+/// an unchanged entry of the loaded SDK (a missing SDK entry prints as `-key`); the `ALIAS_STATE`
+/// sub-state; the function meta-info.  `kinds`: classify the new commands by running them
+/// (final observation) or by their help text only (cheap per-step snapshots).
+fn observe(ctx: &Context, seen: &Rc<RefCell<Vec<Vec<String>>>>, kinds: bool) -> (String, String) {
+    BASE.with(|b| {
+        let mut cm = vec![];
+        for (k, v) in ctx.commands.commands.iter() {
+            let al = v.aliases();
+            let unchanged = b.commands.get(k).map(|bal| *bal == al && v.name() == *k).unwrap_or(false);
+            if !unchanged {
+                let kind = if v.name() != *k {
+                    "name-mismatch".to_string()
+                } else if kinds {
+                    kind_of(v, ctx, seen)
+                } else {
+                    format!("help:{}", v.help().len())
+                };
+                cm.push(format!("{}>{}/{}", enc_str(k), kind, enc_list(&al)));
+            }
+        }
+        for k in b.commands.keys() {
+            if !ctx.commands.commands.contains_key(k) {
+                cm.push(format!("-{}", enc_str(k)));
+            }
+        }
+        cm.sort();
+        let mut am = vec![];
+        for (k, v) in ctx.commands.aliases.iter() {
+            if b.aliases.get(k) != Some(v) {
+                am.push(format!("{}>{}", enc_str(k), enc_str(v)));
+            }
+        }
+        for k in b.aliases.keys() {
+            if !ctx.commands.aliases.contains_key(k) {
+                am.push(format!("-{}", enc_str(k)));
+            }
+        }
+        am.sort();
+        let mut sub = vec![];
+        if let Some(s) = sub_state(&ctx.state, "ALIAS_STATE") {
+            for (k, v) in s {
+                match v {
+                    StateValue::Boolean(true) => sub.push(enc_str(k)),
+                    _ => sub.push(format!("{}:odd", enc_str(k))),
+                }
+            }
+        }
+        sub.sort();
+        let mut fns = vec![];
+        if let Some(mi) = sub_state(&ctx.state, "duckscriptsdk::command::function").and_then(|f| sub_state(f, "meta_info")) {
+            for (k, v) in mi {
+                if let StateValue::SubState(info) = v {
+                    match info.get("start") {
+                        Some(StateValue::UnsignedNumber(n)) => fns.push(format!("{}>{}", enc_str(k), n)),
+                        Some(_) => fns.push(format!("{}>odd", enc_str(k))),
+                        None => {} // created empty by a lookup
+                    }
+                }
+            }
+        }
+        fns.sort();
+        let dang = ctx.commands.aliases.values().any(|t| !ctx.commands.commands.contains_key(t));
+        (
+            format!("CMDS {} ALIASES {} SUB {}", cm.join(","), am.join(","), sub.join(",")),
+            format!("FNS {} DANG {}", fns.join(","), dang as u8),
+        )
+    })
+}
+
+fn enc_result(r: &CommandResult) -> String {
+    match r {
+        CommandResult::Continue(Some(v)) if v == "true" => "1".to_string(),
+        CommandResult::Continue(Some(v)) if v == "false" => "0".to_string(),
+        CommandResult::Continue(_) => "continue?".to_string(),
+        CommandResult::GoTo(None, GoToValue::Line(_)) => "goto".to_string(),
+        CommandResult::GoTo(..) => "goto?".to_string(),
+        CommandResult::Error(_) => "err".to_string(),
+        CommandResult::Crash(_) => "crash".to_string(),
+        CommandResult::Exit(_) => "exit".to_string(),
+    }
+}
+
+fn script_instruction(command: &str, args: Vec<String>) -> Instruction {
+    let mut si = ScriptInstruction::new();
+    si.command = Some(command.to_string());
+    si.arguments = if args.is_empty() { None } else { Some(args) };
+    Instruction { meta_info: InstructionMetaInfo::new(), instruction_type: InstructionType::Script(si) }
+}
+
+/// run ONE operation on the real context
+fn apply_real(ctx: &mut Context, op: &SOp) -> String {
+    match op {
+        SOp::N { name, al, t } => {
+            let c = TestCmd { name: name.clone(), aliases: al.clone(), tag: *t };
+            if ctx.commands.set(Box::new(c)).is_ok() { "S1".to_string() } else { "S0".to_string() }
+        }
+        SOp::A { args, .. } => enc_result(&crate::sdkenv::run_one(ctx, "alias", args.clone(), None).0),
+        SOp::U(args) => enc_result(&crate::sdkenv::run_one(ctx, "unalias", args.clone(), None).0),
+        SOp::R(args) => enc_result(&crate::sdkenv::run_one(ctx, "remove_command", args.clone(), None).0),
+        SOp::D(args) => enc_result(&crate::sdkenv::run_one(ctx, "is_command_defined", args.clone(), None).0),
+        SOp::F { name, line, has_end, scoped } => {
+            // the script around the definition: `line` empty lines, `fn [<scope>] name`, (`end_fn`)
+            let mut instructions: Vec<Instruction> = (0..*line)
+                .map(|_| Instruction { meta_info: InstructionMetaInfo::new(), instruction_type: InstructionType::Empty })
+                .collect();
+            let args = if *scoped { vec!["<scope>".to_string(), name.clone()] } else { vec![name.clone()] };
+            let ins = script_instruction("fn", args);
+            instructions.push(ins.clone());
+            if *has_end {
+                instructions.push(script_instruction("end_fn", vec![]));
+            }
+            let mut env = crate::sdkenv::quiet_env(None);
+            let (r, _) = duckscript::runner::run_instruction(&mut ctx.commands, &mut ctx.variables, &mut ctx.state, &instructions, ins, *line, &mut env);
+            enc_result(&r)
+        }
+    }
+}
+
+/// the same history written as ONE script and run by the real runner (possible when the native
+/// registrations come first, every `fn` has its end and stands on its canonical line): the
+/// answers (`o<i>` variables) and the final state must be those of the step-by-step run
+fn script_route(ops: &[SOp], results: &[String], final_state: &str) -> Option<String> {
+    let kinds: Vec<(bool, bool)> = ops.iter().map(|o| match o {
+        SOp::N { .. } => (false, false),
+        SOp::F { has_end, .. } => (true, *has_end),
+        _ => (true, false),
+    }).collect();
+    let lines = canonical_lines(&kinds);
+    let mut seen_script_op = false;
+    let mut text = String::new();
+    for (i, o) in ops.iter().enumerate() {
+        match o {
+            SOp::N { .. } => {
+                if seen_script_op {
+                    return None;
+                }
+            }
+            SOp::F { name, line, has_end, scoped } => {
+                if !*has_end || *line != lines[i] {
+                    return None;
+                }
+                seen_script_op = true;
+                text.push_str(&format!("fn {}{}\nend\n", if *scoped { "<scope> " } else { "" }, name));
+            }
+            SOp::A { args, .. } | SOp::U(args) | SOp::R(args) | SOp::D(args) => {
+                seen_script_op = true;
+                let c = match o {
+                    SOp::A { .. } => "alias",
+                    SOp::U(_) => "unalias",
+                    SOp::R(_) => "remove_command",
+                    _ => "is_command_defined",
+                };
+                text.push_str(&format!("o{} = {} {}\n", i, c, args.join(" ")));
+            }
+        }
+    }
+    let (mut ctx, seen) = fresh_context();
+    for o in ops {
+        if let SOp::N { .. } = o {
+            apply_real(&mut ctx, o);
+        }
+    }
+    match crate::sdkenv::run_text(&text, ctx) {
+        Ok(c2) => {
+            for (i, o) in ops.iter().enumerate() {
+                if matches!(o, SOp::N { .. } | SOp::F { .. }) {
+                    continue;
+                }
+                let want = match results[i].trim_end_matches('!') {
+                    "1" => "true",
+                    "0" | "err" => "false",
+                    _ => continue,
+                };
+                if c2.variables.get(&format!("o{}", i)).map(|s| s.as_str()) != Some(want) {
+                    return Some(format!("ROUTE-DIFF o{}={:?}", i, c2.variables.get(&format!("o{}", i))));
+                }
+            }
+            let (a, b) = observe(&c2, &seen, true);
+            let st = format!("{} {}", a, b);
+            if st != final_state { Some(format!("ROUTE-DIFF {}", st.replace(' ', "_"))) } else { None }
+        }
+        Err(_) => Some("ROUTE-DIFF script-failed".to_string()),
+    }
+}
+
+fn run_regs(req: &str) -> String {
+    let ops = parse_sops(req);
+    let (mut ctx, seen) = fresh_context();
+    let mut outs = vec![];
+    let mut prev = observe(&ctx, &seen, false);
+    for o in &ops {
+        let mut r = apply_real(&mut ctx, o);
+        let now = observe(&ctx, &seen, false);
+        // an operation that reports failure must have changed nothing (a refused `fn` may have
+        // recorded its meta-info: the real command stores it before it registers the command)
+        let refused = matches!(r.as_str(), "err" | "crash" | "S0" | "0") || matches!(o, SOp::D(_));
+        if refused {
+            let same = if matches!(o, SOp::F { .. }) { now.0 == prev.0 } else { now == prev };
+            if !same {
+                r.push('!');
+            }
+        }
+        prev = now;
+        outs.push(r);
+    }
+    let (a, b) = observe(&ctx, &seen, true);
+    let st = format!("{} {}", a, b);
+    let extra = match script_route(&ops, &outs, &st) {
+        Some(d) => format!(" {}", d),
+        None => String::new(),
+    };
+    format!("{} | {}{}", outs.join(";"), st, extra)
+}
+
+fn describe_regs(req: &str) -> String {
+    parse_sops(req).iter().map(|o| match o {
+        SOp::N { name, al, t } => format!("Commands::set {}{:?}#{}", name, al, t),
+        SOp::A { args, .. } => format!("alias {}", args.join(" ")),
+        SOp::U(a) => format!("unalias {}", a.join(" ")),
+        SOp::R(a) => format!("remove_command {}", a.join(" ")),
+        SOp::D(a) => format!("is_command_defined {}", a.join(" ")),
+        SOp::F { name, line, has_end, scoped } => format!("[line {}] fn {}{}{}", line, if *scoped { "<scope> " } else { "" }, name, if *has_end { " … end" } else { " (no end)" }),
+    }).collect::<Vec<_>>().join("; ")
+}
+
+fn relation_regs(imp: &str) -> Option<bool> {
+    // model-independent: no alias points to a command that is gone (DANG is computed on the whole
+    // real alias table); an operation that reported failure left everything as it was (`!`)
+    if imp == "PANIC" {
+        return Some(false);
+    }
+    let (outs, st) = imp.split_once(" | ")?;
+    if outs.contains('!') {
+        return Some(false);
+    }
+    let st = st.split(" ROUTE-DIFF").next().unwrap();
+    if !st.ends_with("DANG 0") {
+        return Some(false);
+    }
+    // the printed (changed) alias entries must point to existing commands as well
+    let names: BTreeSet<String> = st.strip_prefix("CMDS ")?.split(" ALIASES ").next()?.split(',').filter(|s| !s.is_empty()).map(|e| e.split('>').next().unwrap().to_string()).collect();
+    let apart = st.split(" ALIASES ").nth(1)?.split(" SUB").next()?;
+    for e in apart.split(',').filter(|s| !s.is_empty() && !s.starts_with('-')) {
+        let target = e.split('>').nth(1)?;
+        if !names.contains(target) && !BASE.with(|b| b.commands.contains_key(&dec_str(target).unwrap_or_default())) {
+            return Some(false);
+        }
+    }
+    Some(true)
+}
+
+fn regs_fixed(tier: Tier) -> Vec<Case> {
+    let ts = exhaustive_templates();
+    let k = if tier == Tier::Quick { 3 } else { 4 };
+    let mut out = vec![];
+    let mut cur: Vec<Vec<Tmpl>> = vec![vec![]];
+    for len in 0..=k {
+        let mut next = vec![];
+        for h in &cur {
+            out.push(Case { req: render_sreq(&number(h)), in_domain: true, nontrivial: h.len() >= 2, tags: vec!["script-exhaustive"] });
+            if len < k {
+                for t in &ts {
+                    let mut n = h.clone();
+                    n.push(t.clone());
+                    next.push(n);
+                }
+            }
+        }
+        cur = next;
+    }
+    for h in regression_templates() {
+        out.push(Case { req: render_sreq(&number(&h)), in_domain: true, nontrivial: true, tags: vec!["script-regression"] });
+    }
+    out
+}
+
 impl Prop for C15Prop {
     fn id(&self) -> &'static str {
         "C15"
     }
     fn rule(&self) -> &'static str {
-        "histories of set/get/exists/remove/get_all_command_names on the public Commands API over the names {a,b,c,x,y} with alias sets that include names equal to another command's alias, shared, duplicate and self aliases: all histories of <= k mutating operations (k=3 quick, 4 thorough) over 11 operations exhaustively, each followed by lookups of every name; plus random longer histories. Observed: every return value, and the complete name and alias tables (public fields) at the end. Non-trivial = at least 2 mutating operations; distinct = distinct request."
+        "histories of set/get/exists/remove/get_all_command_names on the public Commands API over the names {a,b,c,x,y} with alias sets that include names equal to another command's alias, shared, duplicate and self aliases: all histories of <= k mutating operations (k=3 quick, 4 thorough) over 11 operations exhaustively, each followed by lookups of every name; plus random longer histories. Observed: every return value, and the complete name and alias tables (public fields) at the end. Non-trivial = at least 2 mutating operations; distinct = distinct request. Second stream (a third of the random cases + its own exhaustive family): histories of the SCRIPT-LEVEL commands alias / unalias / remove_command / is_command_defined / fn (and embedder registrations) over the names {a,b,foo,std::B}, run one by one in-process in a context with the SDK loaded (fn through run_instruction with its own instruction list and line): all histories of <= 3 (quick) / 4 (thorough) of 16 operations plus regression histories for stale alias records, the function table and arities; random longer histories with native registrations first. Observed: every command result, and at the end the difference of both registry tables to the loaded SDK (each new command classified native / created-by-alias#id / function@line by RUNNING it), the ALIAS_STATE sub-state and the function meta-info; where the history can be written as one script it is also run by the real runner and must give the same answers and state. Model-independent relation: no dangling alias in the whole real alias table, and an operation that reported failure changed nothing."
     }
     fn budget(&self, tier: Tier) -> usize {
         match tier {
@@ -105,9 +669,15 @@ impl Prop for C15Prop {
             }
             cur = next;
         }
+        out.extend(regs_fixed(tier));
         out
     }
     fn generate(&self, rng: &mut Rng, _tier: Tier) -> Case {
+        if rng.below(3) == 0 {
+            // a third of the random cases: histories through the script-level commands
+            let ts = random_templates(rng);
+            return Case { req: render_sreq(&number(&ts)), in_domain: true, nontrivial: ts.len() >= 2, tags: vec!["script-random"] };
+        }
         let n = 1 + rng.below(14);
         let mut ops = vec![];
         for _ in 0..n {
@@ -126,6 +696,9 @@ impl Prop for C15Prop {
         Case { req: finish(&ops), in_domain: true, nontrivial: n >= 2, tags: vec!["random"] }
     }
     fn run_impl(&self, req: &str, _m: &str) -> String {
+        if req.starts_with("regs ") {
+            return run_regs(req);
+        }
         let ops = req.split(' ').nth(1).unwrap();
         let mut cmds = Commands::new();
         let mut outs = vec![];
@@ -156,7 +729,10 @@ impl Prop for C15Prop {
         a.sort();
         format!("{} | CMDS {} ALIASES {}", outs.join(";"), c.join(","), a.join(","))
     }
-    fn relation(&self, _req: &str, _m: &str, imp: &str) -> Option<bool> {
+    fn relation(&self, req: &str, _m: &str, imp: &str) -> Option<bool> {
+        if req.starts_with("regs ") {
+            return relation_regs(imp);
+        }
         // model-independent: no alias points to a command that is gone
         if imp == "PANIC" {
             return Some(false);
@@ -174,18 +750,25 @@ impl Prop for C15Prop {
         Some(true)
     }
     fn shrink(&self, req: &str) -> Vec<String> {
+        let head = req.split(' ').next().unwrap();
         let ops: Vec<&str> = req.split(' ').nth(1).unwrap().split(';').collect();
         let mut out = vec![];
         for i in 0..ops.len() {
             let mut o = ops.clone();
             o.remove(i);
             if !o.is_empty() {
-                out.push(format!("reg {}", o.join(";")));
+                out.push(format!("{} {}", head, o.join(";")));
             }
         }
         out
     }
+    fn outcome_kind(&self, imp: &str) -> String {
+        if imp.contains(" SUB ") { "script-level".to_string() } else if imp.contains("CMDS") { "api".to_string() } else { "other".to_string() }
+    }
     fn describe(&self, req: &str) -> String {
+        if req.starts_with("regs ") {
+            return describe_regs(req);
+        }
         let ops = req.split(' ').nth(1).unwrap();
         ops.split(';').map(|o| {
             let f: Vec<&str> = o.split('/').collect();
